@@ -28,7 +28,7 @@ PROPS['C10'] = dict(
                  'termination, stack never overflows, expect/unreachable!/index sites unreachable; (A4) SwitchActions::next returns the first firing '
                  'case from case_index on, break ends the iteration, fallthrough continues; (A5) theorem_written_condition: for every written condition tree '
                  '(leaves, and/or/not with >= 1 operand, depth <= 8) the prefix encoding with absolute end indices satisfies the evaluator precondition and '
-                 'sem_top(enc) is the meaning of the tree (structural induction over mutually recursive ghost datatypes; new_bool is proved to build the operator word enc uses); (A6) the COMPILER parser/src/cfg/switch.rs::parse_switch_case_bool, as FRAGMENTS of the real function: the prologue (size/depth checks) and the and/or/not arm (placeholder, recursion over the operands, back-patching of the absolute end index) satisfy the contract compiles(e, depth, before, after) = `after == before + enc(tree(e), |before|)` and nesting <= 9 - depth, given that contract for the recursive calls (induction step) - plus the keyword table read from the dispatch closure (or/and/not denote their own operator); (A7) every LEAF ARM of the compiler (fragments compile_key_atom, compile_key_history_arm, compile_input_arm, compile_input_history_arm, compile_key_timing_arm, compile_layer_arm): the words it appends decode, with the evaluator's own decoder, to the test that was written (row 0 real / row 1 virtual, recency n-1, comparison direction, compressed threshold, layer vs base-layer), and key-timing raises switch_max_key_timing to the maximum threshold. Kani: the same codec facts on the unextracted functions '
+                 'sem_top(enc) is the meaning of the tree (structural induction over mutually recursive ghost datatypes; new_bool is proved to build the operator word enc uses); (A6) the COMPILER parser/src/cfg/switch.rs::parse_switch_case_bool, as FRAGMENTS of the real function: the prologue (size/depth checks) and the and/or/not arm (placeholder, recursion over the operands, back-patching of the absolute end index) satisfy the contract compiles(e, depth, before, after) = `after == before + enc(tree(e), |before|)` and nesting <= 9 - depth, given that contract for the recursive calls (induction step) - plus the keyword table read from the dispatch closure (or/and/not denote their own operator); (A7) every LEAF ARM of the compiler (fragments compile_key_atom, compile_key_history_arm, compile_input_arm, compile_input_history_arm, compile_key_timing_arm, compile_layer_arm): the words it appends decode, with the decoder of the evaluator, to the test that was written (row 0 real / row 1 virtual, recency n-1, comparison direction, compressed threshold, layer vs base-layer), and key-timing raises switch_max_key_timing to the maximum threshold. Kani: the same codec facts on the unextracted functions '
                  'over full operand domains, and each leaf arm of the real evaluate_boolean against the leaf meaning the Verus proof assumes (R5 split).'),
     verus=[dict(unit='switch', cex={'evaluate_boolean': ['c10_b_shape_nested_last_then_more', 'c10_b_shape_nested_first', 'c10_b_shape_nested_last', 'c10_b_shape_toplevel_list'], 'next': ['c10_b_case_iteration']},
                 fallback=['c10_b_shape_nested_last_then_more', 'c10_b_shape_nested_first', 'c10_b_shape_nested_last', 'c10_b_shape_toplevel_list', 'c10_b_case_iteration']), dict(unit='waiting', only=['do_action_fork'])],
